@@ -52,11 +52,11 @@ def gen_cases(rng, tier):
         kind = rng.choice(CLASSES + CLASSES + ['str', 'list', 'tuple', 'bitarray', 'bytes', 'bytearray'] + ITERATOR_KINDS)
         if kind in ('bytes', 'bytearray'): bits2 = bits2[:len(bits2) - len(bits2) % 8]
         yield {'op': rng.choice(['add', 'add', 'radd']) if kind not in CLASSES else 'add', 'cls': rng.choice(CLASSES), 'bits': bits, 'other': kind, 'bits2': bits2,
-               'route': rng.choice(ROUTES), 'pos': rng.choice([None, 0, l // 2, l])}
+               'route': rng.choice(ROUTES), 'pos': rng.choice([None, 0, l // 2, l]), 'lsb0': rng.random() < 0.3}      # s.bin of a sum does not depend on the bit numbering
         # repetition
         n = rng.choice([-2, -1, 0, 1, 2, 3, 4, 5, 7, 8, 9, 15, 16, 17, 31, 33, 64, 70])
         lb = min(l, 130)
-        yield {'op': rng.choice(['mul', 'rmul', 'imul']), 'cls': rng.choice(CLASSES), 'bits': bits[:lb], 'n': n, 'route': rng.choice(ROUTES)}
+        yield {'op': rng.choice(['mul', 'rmul', 'imul']), 'cls': rng.choice(CLASSES), 'bits': bits[:lb], 'n': n, 'route': rng.choice(ROUTES), 'lsb0': rng.random() < 0.25}
     for n in [1000, 1023, 1024, 1025, 4097]:
         yield {'op': 'mul', 'cls': 'Bits', 'bits': rand_bits(rng, rng.randrange(1, 4)), 'n': n, 'route': 'bin'}
 
